@@ -5,7 +5,7 @@ from datetime import datetime, timedelta, timezone
 from ..refs import vtimezone as R5
 
 ID = "C12"
-RULE = ("(1) VTIMEZONE definitions (G7): 1-4 observances, whole-minute offsets -12h..+14h, kinds {yearly nth-weekday rule pair, rule+UNTIL (UTC), rule+COUNT, RDATE "
+RULE = ("(1) VTIMEZONE definitions (G7): 1-4 observances, whole-minute offsets -12h..+14h, kinds {yearly nth-weekday rule pair, rule+UNTIL (UTC), rule+COUNT (both also with RDATE onsets next to the RRULE), RDATE "
         "lists, single onsets - also onsets hours apart whose local DTSTART order differs from their order in time, and onsets that keep the offset and change only TZNAME or STANDARD/DAYLIGHT}, with/without TZNAME (also the same TZNAME on observances with different offsets), observance order shuffled; built with "
         "Timezone.from_ical(text).to_tz(tzp, lookup_tzid=False) under both providers; instants: every onset -1 s / 0 / +1 s / +20 d (a sample of onsets per "
         "definition in quick) and two instants in 2037; p.astimezone(tz) must give R5's TZOFFSETTO, TZNAME when given, dst()==0 under STANDARD, and the two "
@@ -41,6 +41,7 @@ def gen_definition(rng):
         y0 = rng.randrange(1970, 2011)
         m1, m2 = rng.choice(((3, 10), (4, 9), (3, 11), (10, 3), (9, 4), (5, 8)))
         hour = rng.choice((1, 2, 3))
+        with_rdates = rng.choice((0, 0, 1, 2))
         for k, (month, frm, to, nm) in (("DAYLIGHT", (m1, std, dst, names[1])), ("STANDARD", (m2, dst, std, names[0]))):
             n = rng.choice((1, 2, -1, -1, 3))
             wd = rng.randrange(7)
@@ -55,7 +56,12 @@ def gen_definition(rng):
                 until = (u.year, u.month, u.day, u.hour, u.minute, u.second)
             elif kind == "rule-count":
                 count = rng.randrange(1, 30)
-            obs.append((k, (y0, month, day, hour, 0, 0), frm, to, nm, (), (month, n, wd, until, count)))
+            rd = ()
+            if kind in ("rule-until", "rule-count") and with_rdates:
+                # an observance may give further onsets with RDATE next to its RRULE (RFC 5545 3.6.5): here years after the rule has run out
+                last = (yu if kind == "rule-until" else y0 + count) + 1
+                rd = tuple((last + j, month, 15, hour, 0, 0) for j in range(1, with_rdates + 1) if last + j < 2037)
+            obs.append((k, (y0, month, day, hour, 0, 0), frm, to, nm, rd, (month, n, wd, until, count)))
     elif kind == "rdates":
         y0 = rng.randrange(1970, 2020)
         for k, (month, frm, to, nm) in (("DAYLIGHT", (3, std, dst, names[1])), ("STANDARD", (10, dst, std, names[0]))):
